@@ -352,9 +352,9 @@ func init() {
 		ID: "C15",
 		NumBatches: func(tier string, seed int64) int {
 			if tier == "thorough" {
-				return 640 + 22
+				return 640 + 25
 			}
-			return 64 + 22
+			return 64 + 25
 		},
 		Run: func(c *rt.Ctx) {
 			nShapes := 64
@@ -367,7 +367,8 @@ func init() {
 				k := c.Idx - nShapes
 				embs := []any{zoo.EmbVal{}, zoo.EmbPtr{}, zoo.EmbConflict{}, zoo.EmbShadow{}, zoo.EmbTagged{}, zoo.EmbUnexp{}, zoo.EmbPtrUnexp{}, zoo.EmbDeep{}, zoo.Tags{}, zoo.One{},
 					zoo.EmbL3{}, zoo.EmbL3Ptr{}, zoo.EmbAmbig{}, zoo.EmbTaggedWins{}, zoo.EmbDepthWins{}, zoo.EmbCase{}, zoo.EmbPtrCase{}, zoo.EmbValCase{},
-					zoo.EmbPtrColl{}, zoo.EmbValColl{}, zoo.EmbValPtrColl{}, zoo.EmbTwoPtrColl{}}
+					zoo.EmbPtrColl{}, zoo.EmbValColl{}, zoo.EmbValPtrColl{}, zoo.EmbTwoPtrColl{},
+					zoo.EmbHidVal{}, zoo.EmbHidPtr{}, zoo.EmbHidDeep{}}
 				x := embs[k%len(embs)]
 				t := reflect.TypeOf(x)
 				keys := []string{"A", "a", "B", "b", "C", "c", "D", "d", "E", "e", "F", "f", "Z", "z", "X", "x", "Q", "U", "V", "v", "inner", "Inner", "EmbInner", "embinner", "EmbInner2", "EmbDeep", "L1", "L2", "L3", "l3", "T", "t", "W", "w", "One", "renamed", "Renamed", "omit", "str", "-", "Skip", "Dash", "name", "Name", "NAME", "other", "Other", "Plain", "plain",
